@@ -13,6 +13,7 @@ var checks = map[string]func(*engine.Report){
 	"C02": engine.CheckC02,
 	"C07": engine.CheckC07,
 	"C04": engine.CheckC04,
+	"C05": engine.CheckC05,
 }
 
 func main() {
